@@ -143,7 +143,8 @@ LEVEL = {
     'C17': _lv('Every Debug::fmt and write_alg_name body is read mechanically as a sequence of literal / type-name writes and verified to append '
                'exactly that self-free text (prefix of it on error); every Drop body is verified to zero each state field (zeroize cfg on).',
                'Compiler elision of the stores and residue outside the fields are out of reach of contracts; native harness inspects the '
-               'object bytes after drop (feature zeroize).'),
+               'object bytes after drop (feature zeroize). Known finding F3: the Debug impl of the dependency\'s StreamCipherCoreWrapper -- '
+               'i.e. of the public byte-level types Ctr*/Ofb/BeltCtr -- prints the unused keystream bytes of the current block (recorded, replayed).'),
 }
 
 NOT_APPLICABLE = {}
@@ -203,7 +204,7 @@ def _scan_harnesses():
                     unit = u
                     break
             info = {'units': [unit] if unit else [], 'kani': False,
-                    'props': {'debug': ['C17'], 'drop': ['C17'], 'clone': ['C16', 'C01'], 'indep': ['C16'], 'resume': ['C09', 'C14', 'C01'], 'parks': ['C07', 'C01', 'C04', 'C06', 'C03', 'C09', 'C10'], 'remaining': ['C10', 'C11', 'C06', 'C13'], 'padded': ['C01', 'C13', 'C14'], 'beltdef': ['C06', 'C01', 'C07', 'C08', 'C10', 'C14']}.get(kind, []),
+                    'props': {'debug': ['C17'], 'drop': ['C17'], 'clone': ['C16', 'C01'], 'indep': ['C16'], 'resume': ['C09', 'C14', 'C01'], 'parks': ['C07', 'C01', 'C04', 'C06', 'C03', 'C09', 'C10'], 'remaining': ['C10', 'C11', 'C06', 'C13'], 'padded': ['C01', 'C13', 'C14'], 'beltdef': ['C06', 'C01', 'C07', 'C08', 'C10', 'C14'], 'wdebug': ['C17']}.get(kind, []),
                     'bounds': {'debug': 'Debug text of two instances with different key / IV / history / position is equal (native random search, toy invertible cipher)',
                                'drop': 'feature zeroize: after drop no 8-byte window of the exported state is left in the object storage (native, 16-byte toy cipher)',
                                'clone': 'clone after a random history; original and clone interleaved equal two fresh replays, incl. positions and seeks (native)',
@@ -212,6 +213,7 @@ def _scan_harnesses():
                                'remaining': 'core positioned anywhere in the counter range (around 0, 2^32, 2^64, the end): position read-back exact, remaining_blocks() exact or None only if unrepresentable, one more block advances the position by one (native)',
                                'padded': 'padded front-ends (dependency code over the repo mode): encrypt_padded_b2b Ok iff room, = block encryption of the padded message, decrypt_padded_b2b inverts it, lengths not a multiple of the block size rejected without writing, IV slice length check (native, toy invertible cipher, Pkcs7 / Iso7816)',
                                'beltdef': 'BelT-CTR keystream against its definition E(le128((s0 + i) mod 2^128)) with s0 placed at 2^32 / 2^64 / 2^96 / 2^128 boundaries, single blocks then the parallel entry point, widths 1-3 (native, invertible toy cipher)',
+                               'wdebug': 'Debug text of the public byte-level stream cipher types (dependency wrapper over the repo cores) after the same history under two keys / IVs (native); carries known finding F3',
                                'resume': 'export at a random cut (block / byte), import into a fresh instance, continue == uninterrupted run; encryptor and decryptor states equal; public chaining value (native, toy invertible cipher)'}.get(kind, n)}
         out[n] = info
     out.update(HARNESS_OVERRIDES)
